@@ -72,7 +72,7 @@ AXES_DECL = [
     ("note.created_by", _B, 0, 0, 1, ALL), ("note.is_issue", _B, 0, 0, 1, ALL),
     # ---- recordings
     ("rec.time_expansion", (1.0, 2.0, 0.5), 1.0, 1.0, 2.0, ALL), ("rec.hash", _E, 0, 0, 1, ALL),
-    ("rec.path_form", _B, 0, 0, 0, ALL),
+    ("rec.path_form", (0, 1, 2), 0, 0, 0, ALL),  # 2: the audio directory's own path occurs once more inside the recording path
     ("rec.date", _B, 0, 0, 1, ALL), ("rec.time", _B, 0, 0, 1, ALL),
     ("rec.latitude", _E, 0, 0, 1, ALL), ("rec.longitude", _B, 0, 0, 1, ALL),
     ("rec.license", _B, 0, 0, 1, ALL), ("rec.rights", _E, 0, 0, 1, ALL),
@@ -85,7 +85,7 @@ AXES_DECL = [
     ("se.foreign_recording", _B, 0, 0, 1, CLIPPED), ("se.features", _L, 0, 0, 2, CLIPPED),
     # ---- sequences
     ("seq.sound_events", _L, 0, 1, 2, CLIPPED), ("seq.own_events", _B, 0, 0, 1, CLIPPED),
-    ("seq.features", _L, 0, 0, 2, CLIPPED), ("seq.parent", (0, 1, 2), 0, 0, 2, CLIPPED),
+    ("seq.features", _L, 0, 0, 2, CLIPPED), ("seq.parent", (0, 1, 2, 7), 0, 0, 2, CLIPPED),  # 7: a chain of seven ancestors
     ("seq.shared_parent", _B, 0, 0, 1, CLIPPED),
     # ---- sound event annotations
     ("sea.notes", _L, 0, 0, 2, ANN), ("sea.tags", _L, 0, 0, 2, ANN), ("sea.created_by", _B, 0, 0, 1, ANN),
@@ -123,7 +123,8 @@ AXES_DECL = [
     ("sea.same_sound_event", _B, 0, 0, 0, ANN), ("seq.parent_also_annotated", _B, 0, 0, 0, ANN),
     # 1 / 2: the second tag of every site has the first tag's key in another letter case / with a blank for the underscore
     # 3: the second tag has the first tag's key and the first tag's value in the other Unicode normalisation form (NFC / NFD)
-    ("tags.key_case", (0, 1, 2, 3), 0, 0, 0, ALL),
+    # 4: the two tags' 'key:value' spellings coincide (key 'k', value 'x:v' / key 'k:x', value 'v')
+    ("tags.key_case", (0, 1, 2, 3, 4), 0, 0, 0, ALL),
     # 1: free-text fields carry leading / trailing white space (a note ending in a newline, a value with a trailing blank), and the
     # second tag of every site is the first tag's value plus a trailing blank
     ("text.padded", _B, 0, 0, 0, ALL),
@@ -215,7 +216,9 @@ class Universe:
         value = "val %d" % i
         if self.c["text.padded"] and i % 2 == 1:
             value = "val %d " % (i - 1)
-        if self.c["tags.key_case"] == 3:
+        if self.c["tags.key_case"] == 4:
+            key, value = ("key_" + site_name, "x:val %d" % (i // 2)) if i % 2 == 0 else ("key_" + site_name + ":x", "val %d" % (i // 2))
+        elif self.c["tags.key_case"] == 3:
             value = ["caf\u00e9 %d", "cafe\u0301 %d"][i % 2] % (i // 2)
         elif self.c["tags.key_case"] and i % 2 == 1:
             key = ("Key_" if self.c["tags.key_case"] == 1 else "key ") + site_name
@@ -266,7 +269,8 @@ class Universe:
             return data.Recording(
                 uuid=U("rec:%d" % i),
                 # rec.path_form 1: an up-level reference inside the audio directory (the path object must come back as given)
-                path=("%s/sub %d/réc_%d.wav" if not c["rec.path_form"] else "%s/tmp/../sub %d/réc_%d.wav") % (AUDIO_DIR, i, i),
+                path=(["%s/sub %d/réc_%d.wav", "%s/tmp/../sub %d/réc_%d.wav", "%s/night" + AUDIO_DIR + "/sub %d/réc_%d.wav"][c["rec.path_form"]]
+                      % (AUDIO_DIR, i, i)),
                 duration=10.0 + i, channels=1 + i, samplerate=8000 * (i + 1),
                 time_expansion=c["rec.time_expansion"],
                 hash=[None, "hash%d" % i, ""][c["rec.hash"]],
